@@ -98,7 +98,13 @@ func ZZ_C15_RoundTrip() {
 		ti := zzrt.Choose(2)
 		var snd *actor.PID
 		if zzrt.NondetBool("hasSender") {
-			snd = actor.NewPID(zzrt.NondetString("senderAddr", zzrt.Choose(SL)+1), zzrt.NondetString("senderID", zzrt.Choose(SL)+1))
+			if zzrt.NondetBool("senderIsATarget") {
+				// a PID may be the sender of one message and the target of another (or the same) message
+				snd = actor.NewPID("node:B", tids[zzrt.Choose(2)])
+				zzrt.Reach("sender-is-also-a-target")
+			} else {
+				snd = actor.NewPID(zzrt.NondetString("senderAddr", zzrt.Choose(SL)+1), zzrt.NondetString("senderID", zzrt.Choose(SL)+1))
+			}
 		} else {
 			nnil++
 		}
